@@ -160,3 +160,112 @@ def replay_return_chain_without_default(payload):
 
     rc, out = _run_design(_RETURN_CHAIN)
     return {"reproduced": rc == 0 and "TAIL_DROPPED" in out, "detail": out[-200:]}
+
+
+# ---- `if <compile-time constant>:` keeps the statements the test expression itself stands for -----------------------------------
+# `if f(): ...` where f() assigns signals and returns a constant: the branch is selected at compile time, but the
+# assignments made while evaluating the test are part of the program -- they must be translated, before the branch.
+import ast  # noqa: E402
+
+from cohdl._compiler.frontend import _prepare_ast as PA  # noqa: E402
+from contracts.c02_frontend import _Expr, _Prep  # noqa: E402
+from contracts import c10_frontend as _F  # noqa: F401,E402  (defines the _Prep.apply stand-in)
+
+
+class _Blk:
+    """the translated branch: a block of statements; statements bound to it are recorded"""
+
+
+_Blk.add_bound_statement = lambda self, s: None
+I.register_model(_Blk.add_bound_statement, lambda it, self, s: self.fields["f_bound"].append(s))
+
+
+def translated_order(x):
+    """statements in the order the IR generator will translate them.  Bound statements of a NESTED block are lost
+    (out.CodeBlock splices only .statements()), so they do not count."""
+    if isinstance(x, SObj) and x.kind is OUT.CodeBlock:
+        out = []
+        for s in x.fields["f_stmts"]:
+            if isinstance(s, SObj) and s.kind is _Blk:
+                out.extend(s.fields["f_stmts"])
+            else:
+                out.append(s)
+        return out
+    if isinstance(x, SObj) and x.kind is _Blk:
+        return list(x.fields["f_stmts"])  # returned as it is: it will be nested in the caller's block
+    return None
+
+
+def const_if_spec(value):
+    def spec(sx, self, inp):
+        it = sx.it
+
+        def holds(res):
+            order = translated_order(res)
+            if order is None:
+                return False
+            branch = "body-stmt" if value else "orelse-stmt"
+            return it.test_expr in order and branch in order and order.index(it.test_expr) < order.index(branch) and ("orelse-stmt" if value else "body-stmt") not in order
+
+        return C.Pred(holds, "the test expression is translated, before the statements of the selected branch")
+
+    return spec
+
+
+con = contract("cohdl._compiler.frontend._prepare_ast:PrepareAst.apply_impl", PROPS)
+for value in (True, False):
+    node = ast.parse("if f():\n    body\nelse:\n    orelse\n").body[0]
+    c = Case(f"if-with-constant-test:{value}", [Built([], lambda env: SObj(_Prep, _last_apply_inp=None, _context=None), lambda a: "None", lambda a: None), Built([], (lambda n: lambda env: n)(node), lambda a: "None", lambda a: None)], const_if_spec(value), props=PROPS)
+    c.native = False
+
+    def _apply_parts(it, self, sub, node=node):
+        if sub is node.test:
+            return it.test_raw
+        which = "body-stmt" if sub is node.body else "orelse-stmt"
+        return SObj(_Blk, f_stmts=[which], f_bound=[])
+
+    def _conv_bool(it, self, x, bound=None, value=value):
+        return it.test_expr
+
+    def setup_ci(it, ctx, args, env, value=value):
+        it.test_raw = SObj(_Expr, f_result="f()-result", f_tag="call of f (assigns signals)")
+        it.test_expr = SObj(_Expr, f_result=value, f_bound=[it.test_raw], f_tag="bool(f())")
+
+    c.setup = setup_ci
+    c.models = [(_Prep.apply, _apply_parts), (_Prep.convert_boolean, _conv_bool)]
+    c.interp_flags = {"class_call_models": {OUT.CodeBlock: lambda it, args, kw: SObj(OUT.CodeBlock, f_stmts=list(args[0]))}}
+    c.custom_replay = "contracts.c03_out.replay_constant_if_side_effects"
+    con.cases.append(c)
+
+_CONST_IF = '''
+from __future__ import annotations
+import cohdl
+from cohdl import Bit, Unsigned, Port, std
+
+class Obs(cohdl.Entity):
+    clk = Port.input(Bit)
+    a = Port.input(Unsigned[4])
+    b = Port.input(Unsigned[4])
+    o = Port.output(Unsigned[4])
+    o2 = Port.output(Unsigned[4])
+
+    def architecture(self):
+        def f():
+            self.o2 <<= self.b
+            return True
+
+        @std.sequential(std.Clock(self.clk))
+        def proc():
+            if f():
+                self.o <<= self.a
+
+t = std.VhdlCompiler.to_string(Obs)
+print("SIDE_EFFECT_KEPT" if "buffer_o2 <= b" in t else "SIDE_EFFECT_DROPPED")
+'''
+
+
+def replay_constant_if_side_effects(payload):
+    from contracts.c06_extra import _run_design
+
+    rc, out = _run_design(_CONST_IF)
+    return {"reproduced": rc == 0 and "SIDE_EFFECT_DROPPED" in out, "detail": out[-200:]}
